@@ -195,3 +195,18 @@ def dict_is_update(d, k, v):
 
 def dict_same_except(d, k):
     return True
+
+
+def method_value(qualname):
+    """the value a class attribute is bound to after its decorators ran (evaluated on the real AST)"""
+    raise NotImplementedError('spec primitive')
+
+
+def closure_func(f):
+    """qualified name of the function object f (a closure produced by a decorator, or a plain function)"""
+    raise NotImplementedError('spec primitive')
+
+
+def closure_var(f, name):
+    """value of the free variable `name` captured by the closure f"""
+    raise NotImplementedError('spec primitive')
